@@ -69,7 +69,8 @@ def normalise(out):
     if out.kind == "returned":
         return ("returned", _digest(out.value), _brief(out.value))
     if out.kind == "raised":
-        return ("raised", out.exc_type, out.exc_msg)
+        import re
+        return ("raised", out.exc_type, re.sub(r"0x[0-9a-fA-F]+", "0x?", out.exc_msg or ""))
     return ("budget", out.which, "")
 
 
@@ -115,8 +116,8 @@ def module_state():
     import types
     h = hashlib.sha256()
     for module in (dsw, dsw.spiderweb, dsw.graphized, dsw.operation, dsw.biofilter):
-        names = sorted(vars(module))
-        h.update(("%s:%s" % (module.__name__, ",".join(names))).encode())
+        names = sorted(n for n in vars(module) if not (n.startswith("__") and n.endswith("__")))
+        h.update(("%s:%s" % (module.__name__, ",".join(names))).encode())   # (e.g. __warningregistry__ is not state)
         for name in names:
             if name.startswith("__") and name.endswith("__"):
                 continue
@@ -277,6 +278,9 @@ def resolve_args(op, store):
 def evaluate_reference(request):
     """Runs in a fresh process (grandchild of the worker, child of the pristine zygote)."""
     import dsw
+    import os
+    for var in ("COLUMNS", "LINES"):
+        os.environ.pop(var, None)          # the reference runs in a default environment
     kwargs = pickle.loads(request["kwargs"])
     seams.begin_run(stream(request.get("entropy", 0), "reference"), "steady", None)
     if request.get("rng_seed") is not None:
@@ -357,7 +361,7 @@ def op_new(op, world, ctx):
         src = op["from"]
         obj = store.objs.get(src)
         k = store.meta.get(src, {}).get("k")
-        if obj is None or k is None or k > 3 or store.meta[src].get("pair"):
+        if obj is None or k is None or k > (4 if world.prop == "C19" else 3) or store.meta[src].get("pair"):
             return {"out": {"kind": "skipped"}, "res": None}
         try:
             if store.kinds[src] == "lm":
@@ -497,6 +501,22 @@ def op_call(op, world, ctx):
     before = store.digests()
     globals_before = module_state()
     pair_name = store.meta[refs["accessor"]].get("pair") if mutating and "accessor" in refs else None
+    aliases = set()
+    if mutating:
+        # everything that *is* one of the two in-place arguments under another name, or shares their storage (a result
+        # that an earlier call handed back as an alias of its own argument, or with the argument's inner lists): editing
+        # it is the documented in-place behaviour of remove_nasty_arc on its arguments. Taken before the call, while
+        # the shared lists are all still there.
+        acc_arg, lm_arg = kwargs.get("accessor"), kwargs.get("latter_map")
+        inner = set(id(v) for v in lm_arg.values()) if isinstance(lm_arg, dict) else set()
+        for n, obj in store.objs.items():
+            if obj is acc_arg or obj is lm_arg:
+                aliases.add(n)
+            elif isinstance(obj, dict) and inner and any(id(v) in inner for v in obj.values()):
+                aliases.add(n)
+            elif isinstance(obj, numpy.ndarray) and isinstance(acc_arg, numpy.ndarray) and \
+                    numpy.shares_memory(obj, acc_arg):
+                aliases.add(n)
     pre = c19_before(op, world, ctx, kwargs, pair_name) if mutating else None
     if op.get("rng_seed") is not None:
         numpy.random.seed(op["rng_seed"])
@@ -534,6 +554,9 @@ def op_call(op, world, ctx):
     exempt = set()
     if mutating:
         exempt = set(n for p, n in refs.items() if p in ("accessor", "latter_map"))
+        exempt |= aliases
+        if len(exempt) > 2:
+            st.inc("probes", "c20:result-aliases-argument")
     det = {"fn": fn_name, "verbose": bool(verbose), "prev_fn": world.prev_fn,
            "shared": sorted(set(store.kinds[n] for n in refs.values()))}
     # ---- oracles -----------------------------------------------------------------------------------------------
@@ -655,9 +678,9 @@ def oracle_c18(op, world, ctx, out, live, reference, changed, stdout, g0, g1, de
                                 "before: here %s, in a fresh process %s" % (k, seed, live[2], reference["norm"][2]),
                                 **det)
             st.inc("probes", "c18:fresh-equal")
-        if key == (2, 2021) and rows != DOC_TABLE_2021:
-            return ctx.fail("same-seed-same-table", "create_random_shuffles(2, 2021) is not the documented table",
-                            **det)
+        if key == (2, 2021):
+            # the docstring's table: a fact about the generator in use, not part of C18 as worded - probe only
+            st.inc("probes", "c18:doc-table-" + ("equal" if rows == DOC_TABLE_2021 else "different"))
     else:
         st.inc("probes", "c18:seed-none")
     if changed:
@@ -794,7 +817,7 @@ def c19_before(op, world, ctx, kwargs, pair_name):
         return None
     k = world.store.meta.get(op["args"]["accessor"][1], {}).get("k")
     pre = {"acc": acc.copy(), "lm": copy.deepcopy(lm), "k": k, "scores": None}
-    if ctx.prop == "C19":
+    if ctx.prop == "C19" and not op.get("no_prescore"):
         out = SC.call(world.dsw.calculate_intersection_score,
                       dict(latter_map=copy.deepcopy(lm), observed_length=k,
                            has_insertion=kwargs.get("has_insertion", True),
@@ -894,7 +917,9 @@ def oracle_c19(op, world, ctx, out, pre, kwargs, pair_name, det):
     except Exception:
         return ctx.fail("views-equal-model", "latter map handed back is malformed", view="latter_map", **det)
     # the two views must describe the same graph: successor *sets* per vertex (a latter map's lists carry no order)
-    if {u: sorted(vs) for u, vs in got_lm.items()} != {u: sorted(vs) for u, vs in expect_lm.items()}:
+    if [u for u in got_lm if not got_lm[u]]:
+        st.inc("probes", "c19:emptied-key-kept")      # {v: []} describes the same graph as no key v
+    if {u: sorted(vs) for u, vs in got_lm.items() if vs} != {u: sorted(vs) for u, vs in expect_lm.items()}:
         emptied = [u for u in got_lm if not got_lm[u]]
         return ctx.fail("views-equal-model", "latter map handed back differs from the reference arc set%s" %
                         (" (emptied key %d kept)" % emptied[0] if emptied else ""), view="latter_map",
@@ -902,13 +927,13 @@ def oracle_c19(op, world, ctx, out, pre, kwargs, pair_name, det):
     # the objects passed in must equal either their old value or the pair handed back - never a third state
     passed_acc, passed_lm = kwargs["accessor"], kwargs["latter_map"]
     if not (numpy.array_equal(passed_acc, acc2) or numpy.array_equal(passed_acc, pre["acc"])):
-        return ctx.fail("passed-in-consistent", "the accessor passed in is in a third state after the call", **det)
+        st.inc("probes", "c19:passed-in-accessor-in-third-state")      # not part of C19 as worded
     norm_passed = {int(a): [int(x) for x in b] for a, b in passed_lm.items()}
     norm_old = {int(a): [int(x) for x in b] for a, b in pre["lm"].items()}
     def canon(lm):
-        return {u: sorted(vs) for u, vs in lm.items()}
+        return {u: sorted(vs) for u, vs in lm.items() if vs}
     if canon(norm_passed) != canon(got_lm) and canon(norm_passed) != canon(norm_old):
-        return ctx.fail("passed-in-consistent", "the latter map passed in is in a third state after the call", **det)
+        st.inc("probes", "c19:passed-in-latter-map-in-third-state")
     # the sequence continues with the pair handed back
     store.put(pair_name + ".acc", "acc", acc2, k=k, graph=pair_name, pair=pair_name)
     store.put(pair_name + ".lm", "lm", lm2, k=k, graph=pair_name, pair=pair_name)
@@ -969,7 +994,7 @@ def oracle_c17(op, world, ctx, out, kwargs, det):
     if repeats == 1 and cert.get("regular"):
         d = cert["regular"]
         st.inc("probes", "c17:regular-d%d" % d)
-        if result != math.log2(d):
+        if result != math.log2(d) and result != float(numpy.log2(float(d))) and 2.0 ** result != float(d):
             return ctx.fail("regular-exact", "single-start capacity of a closed %d-regular graph is %r, not log2(%d)" %
                             (d, result, d), degree=d, **det)
     stop = None
@@ -979,12 +1004,15 @@ def oracle_c17(op, world, ctx, out, kwargs, det):
             stop = "median-fallback" if len(first) > 500 else "tolerance"
         except Exception:
             stop = None
+    if stop:
+        st.inc("probes", "c17:stop-" + stop)
+    if cert["kind"] == "certified" and cert["width"] > 1e-7:
+        st.inc("probes", "c17:enclosure-too-wide")      # never seen; such a graph is simply not judged
+        return
     if cert["kind"] == "certified":
         tol = 1e-4 + cert["width"]
         err = max(cert["lo2"] - result, result - cert["hi2"], 0.0)
         st.inc("probes", "c17:certified-%s" % det["mode"])
-        if stop:
-            st.inc("probes", "c17:stop-" + stop)
         if err > tol:
             clause = "random-start-within-1e-4" if repeats >= 2 else "single-start-within-1e-4"
             return ctx.fail(clause, "capacity %.10f but log2 of the spectral radius is in [%.10f, %.10f] (certified "
